@@ -436,12 +436,23 @@ func (p *SolverPool) Solve(asserts []*Term, timeoutMs int, portfolio []SolverKin
 	if !lam {
 		cands = append(cands, cand{kindCVC5, script, true, "", false})
 	}
-	if arrays && hard {
+	fpa := hasFpAxioms(asserts)
+	if fpa || (arrays && hard) || (fpa && hard) {
+		// one abstracted candidate: floating-point results unconstrained and (when
+		// present) mul/div/rem as uninterpreted functions; only unsat is accepted
 		termMu.Lock()
-		ab := abstractArith(asserts)
-		sc, _, _ := ScriptSel(ab, extraDecls())
+		ab := asserts
+		label := "z3-4.8.12"
+		if hard {
+			ab = abstractArith(asserts)
+			label += "+uf-abstracted-mul/div"
+		}
+		if fpa {
+			label += "+fp-results-abstracted"
+		}
+		sc, _, _ := ScriptOpt(ab, extraDecls(), fpa)
 		termMu.Unlock()
-		cands = append(cands, cand{kindZ3, sc, false, k3abs, true})
+		cands = append(cands, cand{kindZ3, sc, false, label, true})
 	}
 	ch := make(chan QueryResult, len(cands))
 	for _, c := range cands {
